@@ -26,9 +26,12 @@ from typing import Dict, List, Optional, Set, Tuple
 
 from sa import astctor, e7, g4, registryx, sqlx, transp
 from sa.cfg import CFG
+from sa import structmodel as sm
+from sa.e6 import Interp, Raised, Unmodelled
 from sa.core import AnalysisError, Finding, FuncInfo, Program, Report, program, src, walk_no_nested
 
 TR = transp.TR
+INF = 10 ** 6
 EXEMPT: Dict[Tuple[str, str], str] = {}
 
 
@@ -145,62 +148,7 @@ def run(rep: Report, tier: str) -> None:  # noqa: C901
                 rep.add(Finding("R06.4", f"R06.4/siblings/{a}-{b}", "src/vtlengine/duckdb_transpiler/Transpiler/operators.py", reg[b].line, f"registry[{b}]",
                                 f"sibling operators {a} / {b} have templates of different shape (`{ta}` vs `{tb}`): one of them treats the frame's datapoints differently"))
 
-    # ---- R06.5 windowing: visit_Windowing evaluated (E6, abstract interpretation) over every frame shape ----
-    from sa import structmodel as sm
-    from sa.e6 import Interp, Raised, Unmodelled
-    vw = P.func(f"{TR}.visit_Windowing")
-    INF = 10 ** 6
-
-    def offset(v: object, mode: str) -> Optional[int]:
-        if v == "current row" or mode == "current":
-            return 0
-        if v == "unbounded" or v == -1:
-            return -INF if mode == "preceding" else INF
-        return -int(v) if mode == "preceding" else int(v)  # type: ignore[call-overload]
-
-    def parse_bound(txt: str) -> Optional[int]:
-        t = txt.strip().upper()
-        if t == "CURRENT ROW":
-            return 0
-        m_ = re.fullmatch(r"(UNBOUNDED|\d+|INTERVAL '(\d+)' DAY) (PRECEDING|FOLLOWING)", t)
-        if not m_:
-            return None
-        if m_.group(1) == "UNBOUNDED":
-            return -INF if m_.group(3) == "PRECEDING" else INF
-        n_ = int(m_.group(2) or m_.group(1))
-        return -n_ if m_.group(3) == "PRECEDING" else n_
-    bounds = [("unbounded", "preceding"), ("unbounded", "following"), ("current row", "current")] + [(k, d) for k in (0, 1, 2, 3) for d in ("preceding", "following")]
-    n_frames = 0
-    for wtype, want_kw in (("data", "ROWS"), ("range", "RANGE")):
-        for date in (False, True):
-            for (a, am) in bounds:
-                for (b, bm) in bounds:
-                    lo, hi = offset(a, am), offset(b, bm)
-                    if lo is None or hi is None or lo > hi or (lo == hi and abs(lo) == INF):
-                        continue  # not a frame VTL admits (the AST constructor orders / rejects these)
-                    node = sm.MNode("Windowing", type_=wtype, start=a, stop=b, start_mode=am, stop_mode=bm)
-                    it = Interp(P, externals={"self._resolve_scalar_varid": lambda x: x})
-                    try:
-                        got = it.call(vw, {"self": sm.MTranspiler(), "node": node, "order_is_date": date})
-                    except Unmodelled as e:
-                        raise AnalysisError(f"R06.5: visit_Windowing is outside the evaluator's language: {e}")
-                    except Raised as e:
-                        got = f"<raises {getattr(e.exc, 'kind', e.exc)}>"
-                    n_frames += 1
-                    key = f"frame/{wtype}{'/date' if date else ''}/{a}-{am}..{b}-{bm}"
-                    rep.instance("R06.5", key, sample={"sql": got})
-                    m_ = re.fullmatch(r"(ROWS|RANGE|GROUPS) BETWEEN (.+?) AND (.+)", str(got).strip())
-                    glo = parse_bound(m_.group(2)) if m_ else None
-                    ghi = parse_bound(m_.group(3)) if m_ else None
-                    if not m_ or m_.group(1) != want_kw or glo != lo or ghi != hi:
-                        rep.add(transp.fnd("R06.5", key, vw, vw.node.lineno,
-                                           f"window `{wtype}{' points' if wtype == 'data' else ''} between {a} {am} and {b} {bm}`" + (" (ordered by a Date)" if date else "") +
-                                           f" is written `{got}`; VTL means {want_kw} from offset {lo} to offset {hi} relative to the current datapoint "
-                                           f"(preceding = negative, following = positive, ±{INF} = unbounded)"))
-                    if date and wtype == "range" and m_ and any(isinstance(x, int) and x > 0 for x in (a, b)) and "INTERVAL" not in str(got):
-                        rep.add(transp.fnd("R06.5", key + "/interval", vw, vw.node.lineno,
-                                           f"RANGE frame over a Date ordering is written `{got}`: DuckDB needs an INTERVAL offset for a date ORDER BY (an integer offset is a binder error)"))
-    rep.floor("R06.5 frames evaluated", n_frames, 150)
+    window_frames(P, rep, "R06.5")
 
     # ---- R06.6 the AST constructor hands visit_Windowing a frame whose limits are in frame order ----
     rep.rule("R06.6", "AST constructor: the two written window limits become (start, stop) in frame order when both lie on the same side; a frame written in order is kept")
@@ -295,3 +243,66 @@ def run(rep: Report, tier: str) -> None:  # noqa: C901
     spelling_grid(rep, "R06.7", {k.lower(): v for k, v in _sqlx7.load_macros(P).items()}, period_limits(P))
     rep.assumptions = ["DuckDB's window functions of the same name implement the VTL analytic operators over the given OVER clause",
                        "grammar alternative <-> constructor method pairing (ANTLR naming)"]
+
+
+def offset(v: object, mode: str) -> Optional[int]:
+    if v == "current row" or mode == "current":
+        return 0
+    if v == "unbounded" or v == -1:
+        return -INF if mode == "preceding" else INF
+    return -int(v) if mode == "preceding" else int(v)  # type: ignore[call-overload]
+
+def parse_bound(txt: str) -> Optional[int]:
+    t = txt.strip().upper()
+    if t == "CURRENT ROW":
+        return 0
+    m_ = re.fullmatch(r"(UNBOUNDED|\d+|INTERVAL '(\d+)' DAY) (PRECEDING|FOLLOWING)", t)
+    if not m_:
+        return None
+    if m_.group(1) == "UNBOUNDED":
+        return -INF if m_.group(3) == "PRECEDING" else INF
+    n_ = int(m_.group(2) or m_.group(1))
+    return -n_ if m_.group(3) == "PRECEDING" else n_
+
+
+def window_frames(P: Program, rep: Report, rule: str) -> None:
+    """visit_Windowing evaluated (finite evaluator) over every frame shape VTL admits, for both window kinds and for numeric / Date orderings:
+    `data points` must become ROWS and `range` RANGE with the same offsets.  Shared with C15 / C33: a VTL range window written as ROWS
+    turns datapoints that tie on the ORDER BY key from peers (one determined result) into a sequence in physical row order."""
+    from sa import structmodel as sm
+    from sa.e6 import Interp, Raised, Unmodelled
+    vw = P.func(f"{TR}.visit_Windowing")
+
+    bounds = [("unbounded", "preceding"), ("unbounded", "following"), ("current row", "current")] + [(k, d) for k in (0, 1, 2, 3) for d in ("preceding", "following")]
+    n_frames = 0
+    for wtype, want_kw in (("data", "ROWS"), ("range", "RANGE")):
+        for date in (False, True):
+            for (a, am) in bounds:
+                for (b, bm) in bounds:
+                    lo, hi = offset(a, am), offset(b, bm)
+                    if lo is None or hi is None or lo > hi or (lo == hi and abs(lo) == INF):
+                        continue  # not a frame VTL admits (the AST constructor orders / rejects these)
+                    node = sm.MNode("Windowing", type_=wtype, start=a, stop=b, start_mode=am, stop_mode=bm)
+                    it = Interp(P, externals={"self._resolve_scalar_varid": lambda x: x})
+                    try:
+                        got = it.call(vw, {"self": sm.MTranspiler(), "node": node, "order_is_date": date})
+                    except Unmodelled as e:
+                        raise AnalysisError(f"{rule}: visit_Windowing is outside the evaluator's language: {e}")
+                    except Raised as e:
+                        got = f"<raises {getattr(e.exc, 'kind', e.exc)}>"
+                    n_frames += 1
+                    key = f"frame/{wtype}{'/date' if date else ''}/{a}-{am}..{b}-{bm}"
+                    rep.instance(rule, key, sample={"sql": got})
+                    m_ = re.fullmatch(r"(ROWS|RANGE|GROUPS) BETWEEN (.+?) AND (.+)", str(got).strip())
+                    glo = parse_bound(m_.group(2)) if m_ else None
+                    ghi = parse_bound(m_.group(3)) if m_ else None
+                    if not m_ or m_.group(1) != want_kw or glo != lo or ghi != hi:
+                        rep.add(transp.fnd(rule, key, vw, vw.node.lineno,
+                                           f"window `{wtype}{' points' if wtype == 'data' else ''} between {a} {am} and {b} {bm}`" + (" (ordered by a Date)" if date else "") +
+                                           f" is written `{got}`; VTL means {want_kw} from offset {lo} to offset {hi} relative to the current datapoint "
+                                           f"(preceding = negative, following = positive, ±{INF} = unbounded)"))
+                    if date and wtype == "range" and m_ and any(isinstance(x, int) and x > 0 for x in (a, b)) and "INTERVAL" not in str(got):
+                        rep.add(transp.fnd(rule, key + "/interval", vw, vw.node.lineno,
+                                           f"RANGE frame over a Date ordering is written `{got}`: DuckDB needs an INTERVAL offset for a date ORDER BY (an integer offset is a binder error)"))
+    rep.floor(f"{rule} frames evaluated", n_frames, 150)
+
